@@ -34,6 +34,13 @@ type SimMQ struct {
 	// Published, when set, returns the index of the first log entry of pch not yet
 	// published at this moment ("latest" for Pos == nil registrations); nil = 0.
 	Published func(pch string) int
+	// Plain pchannels are read through a non time-tick stream: one message per pack, seek exclusive
+	// (the replicate channel carrying operation messages).
+	Plain map[string]bool
+	// Dynamic: the logs grow during the run (Append); a registration without position starts at the current end
+	Dynamic bool
+	// NoPark: registrations are not scheduling points
+	NoPark bool
 	// DbName used in messages for a collection
 	regSeq int
 }
@@ -64,6 +71,9 @@ type SimStream struct {
 	Delivered []*DeliveredPack
 	RegNo     int
 	RegStep   int
+	plain     bool
+	Client    string
+	Next0     int // index into the pchannel log at registration
 	SeekNil   bool
 	SeekSeq   int
 	SeekTs    uint64
@@ -91,9 +101,42 @@ func MsgIDToSeq(b []byte) int {
 var _ msgdispatcher.Client = (*SimMQ)(nil)
 
 func (m *SimMQ) Register(ctx context.Context, cfg *msgdispatcher.StreamConfig) (<-chan *msgstream.MsgPack, error) {
+	return m.register(ctx, "", cfg)
+}
+
+// SimMQClient is one msgdispatcher client (its own vchannel namespace) on the shared queue.
+type SimMQClient struct {
+	m  *SimMQ
+	ID string
+}
+
+func (m *SimMQ) NewClient(id string) *SimMQClient { return &SimMQClient{m: m, ID: id} }
+
+func (c *SimMQClient) Register(ctx context.Context, cfg *msgdispatcher.StreamConfig) (<-chan *msgstream.MsgPack, error) {
+	return c.m.register(ctx, c.ID, cfg)
+}
+func (c *SimMQClient) Deregister(vchannel string) { c.m.deregister(c.ID, vchannel) }
+func (c *SimMQClient) Close()                     {}
+
+func skey(client, vch string) string {
+	if client == "" {
+		return vch
+	}
+	return client + "|" + vch
+}
+
+// Key identifies the stream among all clients.
+func (st *SimStream) Key() string { return skey(st.Client, st.VCh) }
+
+func (m *SimMQ) register(ctx context.Context, cid string, cfg *msgdispatcher.StreamConfig) (<-chan *msgstream.MsgPack, error) {
 	vch := cfg.VChannel
-	key := vch
-	o := m.sim.Park(ctx, "reg", key, nil)
+	key := skey(cid, vch)
+	var o Outcome
+	if m.NoPark {
+		o = Outcome{}
+	} else {
+		o = m.sim.Park(ctx, "reg", key, nil)
+	}
 	if o.CtxErr != nil {
 		return nil, o.CtxErr
 	}
@@ -106,14 +149,31 @@ func (m *SimMQ) Register(ctx context.Context, cfg *msgdispatcher.StreamConfig) (
 	if _, ok := m.Logs[pch]; !ok {
 		return nil, fmt.Errorf("sim: topic %s not found", pch)
 	}
-	if old := m.streams[vch]; old != nil && !old.Closed {
+	if old := m.streams[key]; old != nil && !old.Closed {
 		return nil, fmt.Errorf("sim: vchannel %s already registered", vch)
 	}
-	st := &SimStream{mq: m, VCh: vch, PCh: pch, Ch: make(chan *msgstream.MsgPack, 1), first: true}
+	st := &SimStream{mq: m, VCh: vch, PCh: pch, Ch: make(chan *msgstream.MsgPack, 1), first: true, Client: cid}
 	st.Coll, st.Shard = parseVChan(vch)
 	m.regSeq++
 	st.RegNo = m.regSeq
 	st.RegStep = m.sim.Step
+	if m.Plain[pch] {
+		st.plain = true
+		log := m.Logs[pch]
+		if cfg.Pos == nil || len(cfg.Pos.MsgID) == 0 {
+			st.SeekNil = true
+			st.next = m.latestIndex(pch)
+		} else {
+			seq := MsgIDToSeq(cfg.Pos.MsgID)
+			st.SeekSeq = seq
+			st.next = sort.Search(len(log), func(i int) bool { return log[i].Seq > seq })
+		}
+		st.Next0 = st.next
+		m.streams[key] = st
+		m.All = append(m.All, st)
+		m.sim.Side("registered %s (plain) seeknil=%v seq=%d", key, st.SeekNil, st.SeekSeq)
+		return st.Ch, nil
+	}
 	if cfg.Pos == nil || len(cfg.Pos.MsgID) == 0 {
 		st.SeekNil = true
 		st.next = m.latestIndex(pch)
@@ -131,9 +191,10 @@ func (m *SimMQ) Register(ctx context.Context, cfg *msgdispatcher.StreamConfig) (
 		st.startPos = &msgpb.MsgPosition{ChannelName: pch, MsgID: cfg.Pos.MsgID, Timestamp: cfg.Pos.Timestamp, MsgGroup: cfg.Pos.MsgGroup}
 		st.lastSeq = seq
 	}
-	m.streams[vch] = st
+	st.Next0 = st.next
+	m.streams[key] = st
 	m.All = append(m.All, st)
-	m.sim.Side("registered %s seeknil=%v seq=%d ts=%d", vch, st.SeekNil, st.SeekSeq, st.SeekTs)
+	m.sim.Side("registered %s seeknil=%v seq=%d ts=%d", key, st.SeekNil, st.SeekSeq, st.SeekTs)
 	return st.Ch, nil
 }
 
@@ -141,16 +202,49 @@ func (m *SimMQ) latestIndex(pch string) int {
 	if m.Published != nil {
 		return m.Published(pch)
 	}
+	if m.Dynamic {
+		return len(m.Logs[pch])
+	}
 	return 0
 }
 
-func (m *SimMQ) Deregister(vchannel string) {
+// Append publishes entries on a pchannel (dynamic logs: rig S), assigning message ids.
+func (m *SimMQ) Append(pch string, es ...*REntry) {
 	m.mu.Lock()
 	defer m.mu.Unlock()
-	if st := m.streams[vchannel]; st != nil && !st.Closed {
+	log := m.Logs[pch]
+	last := 0
+	if len(log) > 0 {
+		last = log[len(log)-1].Seq
+	}
+	for _, e := range es {
+		last++
+		e.Seq = last
+		log = append(log, e)
+	}
+	m.Logs[pch] = log
+}
+
+// LastSeq is the message id of the newest entry of a pchannel (0 = empty).
+func (m *SimMQ) LastSeq(pch string) int {
+	m.mu.Lock()
+	defer m.mu.Unlock()
+	log := m.Logs[pch]
+	if len(log) == 0 {
+		return 0
+	}
+	return log[len(log)-1].Seq
+}
+
+func (m *SimMQ) Deregister(vchannel string) { m.deregister("", vchannel) }
+
+func (m *SimMQ) deregister(cid, vchannel string) {
+	m.mu.Lock()
+	defer m.mu.Unlock()
+	if st := m.streams[skey(cid, vchannel)]; st != nil && !st.Closed {
 		st.Closed = true
 		close(st.Ch)
-		m.sim.Side("deregistered %s", vchannel)
+		m.sim.Side("deregistered %s", skey(cid, vchannel))
 	}
 }
 
@@ -174,7 +268,7 @@ func (m *SimMQ) Streams() []*SimStream {
 			out = append(out, st)
 		}
 	}
-	sort.Slice(out, func(i, j int) bool { return out[i].VCh < out[j].VCh })
+	sort.Slice(out, func(i, j int) bool { return out[i].Key() < out[j].Key() })
 	return out
 }
 
@@ -189,6 +283,9 @@ func (m *SimMQ) Stream(vch string) *SimStream {
 func (st *SimStream) CanDeliver() bool {
 	if st.Closed || len(st.Ch) != 0 {
 		return false
+	}
+	if st.plain {
+		return st.next < len(st.mq.Logs[st.PCh])
 	}
 	log := st.mq.Logs[st.PCh]
 	skipping := st.skipping
@@ -212,6 +309,26 @@ func (st *SimStream) Deliver() *DeliveredPack {
 	m.mu.Lock()
 	defer m.mu.Unlock()
 	log := m.Logs[st.PCh]
+	if st.plain {
+		if st.next >= len(log) {
+			return nil
+		}
+		e := log[st.next]
+		st.next++
+		pos := &msgpb.MsgPosition{ChannelName: st.PCh, MsgID: SeqToMsgID(e.Seq), Timestamp: e.Ts}
+		pack := &msgstream.MsgPack{BeginTs: e.Ts, EndTs: e.Ts, StartPositions: []*msgpb.MsgPosition{pos}, EndPositions: []*msgpb.MsgPosition{pos}}
+		if e.Op != nil {
+			msg := wdOpMsg(e.Op)
+			if msg != nil {
+				msg.SetPosition(pos)
+				pack.Msgs = []msgstream.TsMsg{msg}
+			}
+		}
+		dp := &DeliveredPack{EndSeq: e.Seq, EndTs: e.Ts, BeginTs: e.Ts, Entries: []*REntry{e}, Step: m.sim.Step}
+		st.Delivered = append(st.Delivered, dp)
+		st.Ch <- pack
+		return dp
+	}
 	var tick *REntry
 	for st.next < len(log) {
 		e := log[st.next]
